@@ -102,6 +102,14 @@ class Rng:
         self.n += 1
         return '@%d:%d' % (self.u64() >> 20, n)
 
+    def word_pattern(self, n):
+        """n bytes (hex) made of 32-bit words that are all-ones / zero / 0x80000000 / 0x7fffffff / random, at least one all-ones word
+        (word-wise counter or nonce arithmetic that carries into a neighbouring word shows up on such values)"""
+        nw = (n + 3) // 4
+        ws = [self.choice(['ffffffff', 'ffffffff', '00000000', '00000080', 'ffffff7f', None, None]) for _ in range(nw)]
+        ws[self.below(nw)] = 'ffffffff'
+        return ''.join(w if w is not None else self.bytes(4).hex() for w in ws)[:2 * n]
+
     def shuffle(self, l):
         for i in range(len(l) - 1, 0, -1):
             j = self.u64() % (i + 1)
